@@ -343,3 +343,22 @@ def rule_statement_local_state(ctx, facts, prefix):
               "inside the statement loop only the result list and the loop iterator outlive an iteration (carried: %s; %d loop-crossing locals examined)"
               % ([(f.locals[l].get("name") or "_%d" % l) for l in carried] or "none", n),
               f.where(H.bb))
+
+
+def entry_args(facts, f=None):
+    """{parameter name of LogRefEntry::new: operand} at the finder's single construction site (None when the
+    site or the constructor is not found). Lets rules talk about `insertion_prefix`, `reference`, ... by role
+    instead of by the name of a local variable in `find`."""
+    f = f or facts.one(FIND)
+    newf = facts.one(r"code_parser::LogRefEntry::new$")
+    if f is None or newf is None:
+        return None
+    cs = f.calls_to(r"code_parser::LogRefEntry::new$")
+    if len(cs) != 1:
+        return None
+    names = [newf.locals[i].get("name") for i in range(1, newf.arg_count + 1)]
+    if len(names) != len(cs[0].args):
+        return None
+    out = dict(zip(names, cs[0].args))
+    out["__call__"] = cs[0]
+    return out
